@@ -405,6 +405,9 @@ def replay_case(ctx, case):
     if case.get('superpos'):
         import revchecks
         return revchecks.op_superposition_fails(case)
+    if case.get('opadj'):
+        import revchecks
+        return revchecks.op_adjoint_fails(case)
     if 'matpb' in case:
         return matpb_mismatch(case)
     if 'pb' in case:
@@ -449,6 +452,15 @@ def run(ctx):
             f = revchecks.op_superposition_fails(case)
             if f:
                 ctx.report(case, 'failure', f)
+            # the adjoint identity itself for the operation alone (every registered operation, every operand kind)
+            c2 = dict(case)
+            del c2['superpos']
+            c2['opadj'] = True
+            ctx.evaluations += 1
+            ctx.count('op-adjoint')
+            f = revchecks.op_adjoint_fails(c2)
+            if f:
+                ctx.report(c2, 'failure', f)
     # matrix pullback kernels vs the formulas of Proofs/MatPullback.lean
     for i in range(120 if ctx.tier == 'quick' else 1500):
         case = make_matpb_case(rng, ctx.tier)
